@@ -2,6 +2,7 @@ import SimilarVerif.Model.Common
 import SimilarVerif.Lemmas.Lcs
 import SimilarVerif.Lemmas.Myers
 import SimilarVerif.Lemmas.Patience
+import SimilarVerif.Lemmas.MyersTotal
 import SimilarVerif.Lemmas.Walk
 /-!
 # C01 — every algorithm emits a sound, gap-free, index-exact edit script
@@ -13,10 +14,13 @@ stream ends with exactly one `finish`.
 
 Status
 * LCS: **full** — total (no panic, for every clock) and valid.
-* Myers: **partial** — if the call returns, the stream is valid, *relative to* `SnakeInBox E`
-  (the split point returned by `find_middle_snake` lies in the box: Myers' middle-snake theory,
-  Lemmas/MyersTheory.lean when finished). Totality (`∃ r, … = .ok r`) likewise needs the theory.
-* Patience: Lemmas/Patience.lean (in progress); until then covered by the correspondence only.
+* Myers: **full** — total and valid for every clock (`myers_total_valid`, second half of this file):
+  Myers' middle-snake theory is formalised in Lemmas/MyersTheory.lean (furthest-reaching invariant of
+  the `V` arrays, the overlap test fires exactly at ⌈D/2⌉, the split point lies on an optimal path
+  inside the box and is not a corner) and discharges the hypothesis `SnakeInBox` the first theorems
+  below are stated relative to.
+* Patience: partial correctness without hypotheses (`patience_valid_if_returns`); totality of the
+  composite (unique, gap runs, tail run) is not yet a theorem.
 -/
 namespace SimilarVerif.C01
 open SimilarVerif Spec
@@ -93,5 +97,32 @@ theorem patience_partial (E : Env) (hboxE : MyersP.SnakeInBox E) (os oe ns ne : 
     (w : World) (r' : Rec) (w' : World) (ho : os ≤ oe) (hn : ns ≤ ne) (hb : InBounds E os oe ns ne)
     (h : rawTrace .patience E os oe ns ne w = .ok (r', w')) : ValidRaw E os oe ns ne r'.trace :=
   PatienceP.patience_sound E hboxE os oe ns ne hboxU w r' w' ho hn hb (by simpa [rawTrace, diffWith] using h)
+
+end SimilarVerif.C01
+
+namespace SimilarVerif.C01
+open SimilarVerif Spec
+
+/-- **Myers, full strength** (Myers' middle-snake theory, Lemmas/MyersTheory.lean + MyersTotal.lean):
+for all in-bounds ranges and every clock the call returns — no index of the `V` arrays out of bounds,
+no `usize` underflow, the split point inside the box and never a corner, so the recursion terminates —
+and the callback stream is valid. -/
+theorem myers_total_valid (E : Env) (os oe ns ne : Nat) (w : World) (ho : os ≤ oe) (hn : ns ≤ ne)
+    (hb : InBounds E os oe ns ne) :
+    ∃ r w', rawTrace .myers E os oe ns ne w = .ok (r, w') ∧ ValidRaw E os oe ns ne r.trace := by
+  obtain ⟨r, w', h, hv⟩ := MyersT.myers_valid E os oe ns ne w ho hn hb
+  exact ⟨r, w', by simpa [rawTrace, diffWith] using h, hv⟩
+
+/-- the two facts about `find_middle_snake` the soundness proofs were relative to hold for EVERY
+environment (arbitrary `off`, arbitrary stale contents of the `V` arrays) -/
+theorem snake_in_box (E : Env) : MyersP.SnakeInBox E := MyersT.snake_in_box E
+theorem snake_found (E : Env) : MyersP.SnakeFound E := MyersT.snake_found E
+
+/-- **Patience, partial correctness without hypotheses**: whenever the call returns, the stream is
+valid (totality of Patience — the inner runs and `unique` never abort — is the remaining gap). -/
+theorem patience_valid_if_returns (E : Env) (os oe ns ne : Nat) (w : World) (r' : Rec) (w' : World)
+    (ho : os ≤ oe) (hn : ns ≤ ne) (hb : InBounds E os oe ns ne)
+    (h : rawTrace .patience E os oe ns ne w = .ok (r', w')) : ValidRaw E os oe ns ne r'.trace :=
+  patience_partial E (MyersT.snake_in_box E) os oe ns ne (fun uo un _ _ => MyersT.snake_in_box _) w r' w' ho hn hb h
 
 end SimilarVerif.C01
